@@ -265,14 +265,34 @@ def _innermost_library_frame(tb) -> Optional[str]:
     return name
 
 
-def guarded(prop_id: str, execute: Callable[[dict], "Result"]) -> Callable[[dict], "Result"]:
+class RunTimeout(BaseException):
+    """Raised by the per-run wall-clock alarm (World F properties only): a run that does no I/O at all and never returns
+    cannot be seen by the reader-call budget."""
+
+
+def guarded(prop_id: str, execute: Callable[[dict], "Result"], wall_s: Optional[int] = None) -> Callable[[dict], "Result"]:
     """Wrap a property's execute(): an exception that escapes from code under test at a place where the harness expected
     none (the workload is in the property's domain, every expected exception is caught where it is expected) means the
     run cannot show the property - it is reported as a violation of that property, with the exception type and the
     library function as signature. Exceptions raised by harness code itself stay harness errors."""
+    def _alarm(signum, frame):
+        raise RunTimeout()
+
     def run(plan: dict) -> "Result":
+        import signal
+        import threading
+        use_alarm = bool(wall_s) and threading.current_thread() is threading.main_thread()
+        if use_alarm:
+            old = signal.signal(signal.SIGALRM, _alarm)
+            signal.alarm(int(wall_s))
         try:
             return execute(plan)
+        except RunTimeout:
+            res = Result()
+            res.violate((prop_id, "no_termination", "wall_clock"),
+                        f"the run did not finish within {wall_s} s of wall-clock time (ordinary runs take milliseconds to a few "
+                        f"seconds) and did not exhaust the reader-call budget either: a loop that performs no I/O")
+            return res
         except HarnessError:
             raise
         except Exception as e:  # noqa: BLE001
@@ -284,4 +304,8 @@ def guarded(prop_id: str, execute: Callable[[dict], "Result"]) -> Callable[[dict
                         f"the code under test raised {type(e).__name__}: {e!r:.300} in {where} at a point of the run where the "
                         f"workload is in the property's domain and no exception is expected")
             return res
+        finally:
+            if use_alarm:
+                signal.alarm(0)
+                signal.signal(signal.SIGALRM, old)
     return run
